@@ -69,7 +69,7 @@ try:
             except Exception as e:
                 fired[pid] = ['checker error: ' + out[-200:]]; continue
             if v.get('error'): fired[pid] = ['ERROR ' + v['error'][:300]]
-            bad = [f"{o['rule']} @ {o['construct']} ({o['pos']}): {o.get('detail','')[:160]}" for o in v.get('obs', []) if o['verdict'] in ('violation', 'undecided')]
+            bad = [f"{o['rule']} @ {o['construct']} ({o['pos']}): {o.get('detail','')[:160]}" for o in (v.get('obs') or []) if o['verdict'] in ('violation', 'undecided')]
             if bad: fired[pid] = bad
         res['fired'] = fired
 finally:
